@@ -259,22 +259,18 @@ WARMUP_EXPRS = [
 
 
 def _warmup_pairs():
-    """every pair of infix operators in the three bracketings, prefix operators and if/call operands mixed in"""
+    """every pair of infix operators, bare and with parenthesised / prefixed / if / call operands"""
     ar = ["+", "-", "*", "/", "^", ".+", ".-", ".*", "./", ".^"]
     out = []
     for o1 in ar:
         for o2 in ar:
-            if "^" not in o1 and "^" not in o2:
-                out.append("a %s b %s - c" % (o1, o2) if o2 in ("+", "-") and False else "a %s b %s c" % (o1, o2))
-            elif "^" in o1 and "^" not in o2:
-                out.append("a %s b %s c" % (o1, o2))
-            elif "^" not in o1:
+            if not ("^" in o1 and "^" in o2):          # a ^ b ^ c is not Modelica
                 out.append("a %s b %s c" % (o1, o2))
             out.append("( a %s b ) %s ( - c )" % (o1, o2))
             out.append("abs ( a ) %s ( b %s ( if p then c else d ) )" % (o1, o2))
         for r in ("<", "<=", ">", ">=", "==", "<>"):
-            out.append("a %s b %s c and not d %s e or p" % (o1, r, o1) if "^" not in o1 else "a %s b %s c or not p" % (o1, r))
-            out.append("if a %s b then - c %s d else max ( e , f %s g )" % (r, o1, o1) if "^" not in o1 else "if a %s b then - c %s d else e" % (r, o1))
+            out.append("a %s b %s c or not p" % (o1, r))
+            out.append("if a %s b then - c %s d else max ( e , f )" % (r, o1))
     return out
 
 
